@@ -394,6 +394,9 @@ def run(chk):
         chk.sample(runner.describe(runner.observations[0]))
     finally:
         stack.close()
+    # signing across key keeper polls on a connection that stays open (rotation, disable, enable, shutdown signal)
+    from checks import c09
+    c09.keepalive_signing(chk, binp)
     chk.coverage["rule"] = ("function level: (method, uri, headers, body) with duplicate/valueless/prefix-related/mixed-case/percent-escaped "
                             "query keys, repeated header names in any case, blanks, bodies with LF, each also with every single query "
                             "pair / header line removed (coverage oracle); route B through build_request under a known key; e2e: the mock "
